@@ -1,4 +1,4 @@
-(* C03 part B -- $unwind (without includeArrayIndex): model = specification *)
+(* C03 part B -- $unwind (with or without includeArrayIndex): model = specification *)
 From Coq Require Import ZArith List String Bool Ascii Lia Permutation.
 From Verif Require Import Value PyEq BsonOrder Path Update Filter FilterSpec FilterGuard Coll Cursor
      Expr ExprSpec Pipeline PipelineSpec PipelineGuard.
@@ -119,16 +119,142 @@ Proof.
     intros H. unfold unwind_doc. rewrite Hget. destruct preserve; inversion H; reflexivity.
 Qed.
 
-Lemma unwind_docs_spec parts preserve l ls :
-  parts <> [] ->
-  all_opt (map (spec_unwind_doc parts preserve None) l) = Some ls ->
-  mapM (unwind_doc parts preserve None) l = Ok ls.
+(* ---------- includeArrayIndex: the index name is written after the path *)
+Lemma plain_set_doc parts v fs : exists gs, plain_set parts v (VDoc fs) = VDoc gs.
 Proof.
-  intros Hne. revert ls. induction l as [|d l IH]; intros ls H; cbn [map all_opt mapM] in *.
+  destruct parts as [|p rest]; [eexists; reflexivity|].
+  destruct rest as [|q rest]; cbn [plain_set].
+  - eexists; reflexivity.
+  - destruct (assoc p fs); eexists; reflexivity.
+Qed.
+
+Lemma assoc_del_key_other {A} k k' (l : list (string * A)) :
+  k <> k' -> assoc k (del_key k' l) = assoc k l.
+Proof.
+  intros Hk. induction l as [|[a x] l IH]; [reflexivity|]. simpl.
+  destruct (String.eqb k' a) eqn:E.
+  - apply String.eqb_eq in E. subst a.
+    destruct (String.eqb k k') eqn:E2; [apply String.eqb_eq in E2; contradiction|reflexivity].
+  - simpl. destruct (String.eqb k a); [reflexivity|exact IH].
+Qed.
+
+(* setting the path leaves every other top-level field as it was *)
+Lemma plain_set_assoc_other p rest v fs m :
+  m <> p -> exists gs, plain_set (p :: rest) v (VDoc fs) = VDoc gs /\ assoc m gs = assoc m fs.
+Proof.
+  intros Hm. destruct rest as [|q rest]; cbn [plain_set].
+  - destruct v as [x|]; eexists; (split; [reflexivity|]).
+    + apply assoc_set_key_other. apply not_eq_sym. exact Hm.
+    + apply assoc_del_key_other. exact Hm.
+  - destruct (assoc p fs); eexists; (split; [reflexivity|]).
+    + apply assoc_set_key_other. apply not_eq_sym. exact Hm.
+    + reflexivity.
+Qed.
+
+(* an index name that is neither a prefix of the path nor below it: its parent is still an
+   existing sub-document after the path has been set *)
+Lemma parent_doc_after_set n : forall parts v d,
+  ProjectSpec.is_prefix_of n parts = false -> ProjectSpec.is_prefix_of parts n = false ->
+  parent_doc n d -> parent_doc n (plain_set parts v d).
+Proof.
+  induction n as [|m nrest IH]; intros parts v d Hnp Hpn [pfs Hp]; [discriminate|].
+  destruct parts as [|p rest]; [discriminate|].
+  destruct nrest as [|m2 nr].
+  - simpl in Hp. inversion Hp; subst.
+    destruct (plain_set_doc (p :: rest) v pfs) as [gs Hgs]. rewrite Hgs. exists gs. reflexivity.
+  - change (removelast (m :: m2 :: nr)) with (m :: removelast (m2 :: nr)) in Hp.
+    cbn [plain_get] in Hp. destruct d; try discriminate.
+    destruct (assoc m fs) as [sub|] eqn:Ha; [|discriminate].
+    unfold parent_doc.
+    change (removelast (m :: m2 :: nr)) with (m :: removelast (m2 :: nr)).
+    destruct (String.eqb m p) eqn:Emp.
+    + apply String.eqb_eq in Emp. subst m.
+      cbn [ProjectSpec.is_prefix_of] in Hnp, Hpn. rewrite String.eqb_refl in Hnp, Hpn.
+      cbn [andb] in Hnp, Hpn.
+      destruct rest as [|q rest]; [discriminate|].
+      rewrite plain_set_cons2, Ha.
+      destruct (IH (q :: rest) v sub Hnp Hpn (ex_intro _ pfs Hp)) as [pfs' Hp'].
+      exists pfs'. cbn [plain_get]. rewrite assoc_set_key_same. exact Hp'.
+    + apply String.eqb_neq in Emp.
+      destruct (plain_set_assoc_other p rest v fs m Emp) as (gs & Hgs & Hags).
+      rewrite Hgs. exists pfs. cbn [plain_get]. rewrite Hags, Ha. exact Hp.
+Qed.
+
+Lemma combine_map_l {A B C} (f : A -> C) (a : list A) (b : list B) :
+  combine (map f a) b = map (fun ab => (f (fst ab), snd ab)) (combine a b).
+Proof.
+  revert b. induction a as [|x a IH]; intros b; [reflexivity|].
+  destruct b as [|y b]; [reflexivity|]. simpl. f_equal. apply IH.
+Qed.
+
+Lemma unwind_doc_spec_idx parts preserve n d r :
+  parts <> [] -> n <> [] ->
+  ProjectSpec.is_prefix_of n parts = false -> ProjectSpec.is_prefix_of parts n = false ->
+  spec_unwind_doc parts preserve (Some n) d = Some r ->
+  unwind_doc parts preserve (Some n) d = Ok r.
+Proof.
+  intros Hne Hnn Hnp Hpn. unfold spec_unwind_doc.
+  destruct (plain_get (removelast n) d) as [[pv|]|] eqn:Hpar; try discriminate.
+  destruct pv as [| | | | | | |pfs|]; try discriminate.
+  assert (Hpd : parent_doc n d) by (exists pfs; exact Hpar).
+  destruct (plain_get parts d) as [[v|]|] eqn:Hg; [| |discriminate].
+  - assert (Hget := plain_get_get _ _ _ Hg).
+    assert (Hparts : parent_doc parts d) by (eapply plain_get_parent; eassumption).
+    assert (Hscalar : forall other, v = other ->
+              match other with VNull | VArr _ => False | _ => True end ->
+              unwind_doc parts preserve (Some n) d = Ok [plain_set n (Some VNull) d]).
+    { intros other Hv Hnot. subst other. unfold unwind_doc. rewrite Hget.
+      assert (Hm : mapM (fun iv : value * value =>
+                 match set_by_dot parts (snd iv) d with
+                 | Some d0 => match set_by_dot n (fst iv) d0 with Some d' => Ok d' | None => Err EKey end
+                 | None => Err EKey end) [(VNull, v)] = Ok [plain_set n (Some VNull) d]).
+      { cbn [mapM snd fst]. rewrite set_by_dot_plain by assumption.
+        rewrite plain_set_same by assumption.
+        rewrite set_by_dot_plain by assumption. reflexivity. }
+      destruct v; try contradiction; exact Hm. }
+    destruct v as [| | | | | | | |xs];
+      try (intros H; inversion H; subst; apply (Hscalar _ eq_refl I)).
+    + (* null *)
+      intros H. unfold unwind_doc. rewrite Hget. destruct preserve; inversion H; reflexivity.
+    + destruct xs as [|x xs].
+      * intros H. unfold unwind_doc. rewrite Hget. destruct preserve; cbn [negb]; inversion H; reflexivity.
+      * intros H. inversion H; subst. clear H. unfold unwind_doc. rewrite Hget.
+        erewrite mapM_ext.
+        -- rewrite (mapM_pure (fun iv => plain_set n (Some (fst iv)) (plain_set parts (Some (snd iv)) d))).
+           f_equal. rewrite combine_map_l, map_map. reflexivity.
+        -- intros iv _. cbv beta. rewrite set_by_dot_plain by assumption.
+           rewrite set_by_dot_plain; [reflexivity|assumption|].
+           apply parent_doc_after_set; assumption.
+  - assert (Hget := plain_get_get _ _ _ Hg).
+    intros H. unfold unwind_doc. rewrite Hget. destruct preserve; inversion H; reflexivity.
+Qed.
+
+Definition idx_ok (parts : list string) (idx : option (list string)) : Prop :=
+  match idx with
+  | None => True
+  | Some n => n <> [] /\ ProjectSpec.is_prefix_of n parts = false /\ ProjectSpec.is_prefix_of parts n = false
+  end.
+
+Lemma unwind_doc_spec_any parts preserve idx d r :
+  parts <> [] -> idx_ok parts idx ->
+  spec_unwind_doc parts preserve idx d = Some r ->
+  unwind_doc parts preserve idx d = Ok r.
+Proof.
+  intros Hne Hi. destruct idx as [n|].
+  - destruct Hi as (Hnn & Hnp & Hpn). apply unwind_doc_spec_idx; assumption.
+  - apply unwind_doc_spec; assumption.
+Qed.
+
+Lemma unwind_docs_spec parts preserve idx l ls :
+  parts <> [] -> idx_ok parts idx ->
+  all_opt (map (spec_unwind_doc parts preserve idx) l) = Some ls ->
+  mapM (unwind_doc parts preserve idx) l = Ok ls.
+Proof.
+  intros Hne Hi. revert ls. induction l as [|d l IH]; intros ls H; cbn [map all_opt mapM] in *.
   - inversion H; reflexivity.
-  - destruct (spec_unwind_doc parts preserve None d) as [r|] eqn:Hr; [|discriminate].
-    destruct (all_opt (map (spec_unwind_doc parts preserve None) l)) as [rs|]; [|discriminate].
-    inversion H; subst. rewrite (unwind_doc_spec _ _ _ _ Hne Hr). rewrite (IH rs eq_refl). reflexivity.
+  - destruct (spec_unwind_doc parts preserve idx d) as [r|] eqn:Hr; [|discriminate].
+    destruct (all_opt (map (spec_unwind_doc parts preserve idx) l)) as [rs|]; [|discriminate].
+    inversion H; subst. rewrite (unwind_doc_spec_any _ _ _ _ _ Hne Hi Hr). rewrite (IH rs eq_refl). reflexivity.
 Qed.
 
 (* ---------- the stage *)
@@ -177,21 +303,16 @@ Proof.
   destruct c as [[] [] [] [] [] [] [] []]; reflexivity.
 Qed.
 
-Definition unwind_covered (o : value) : bool :=
-  match o with VDoc fs => negb (has_key "includeArrayIndex" fs) | _ => true end.
-
-Lemma has_key_assoc {A} k (l : list (string * A)) : has_key k l = false -> assoc k l = None.
-Proof.
-  induction l as [|[k' v] l IH]; simpl; [reflexivity|].
-  destruct (String.eqb k k'); [discriminate|exact IH].
-Qed.
-
+(* every option document is covered: with includeArrayIndex the specification decides only
+   index names whose components are plain and that are neither a prefix of the path nor
+   below it, on documents where the parent of the index name is an existing sub-document and
+   (with preserveNullAndEmptyArrays) the path holds a non-empty array or a scalar; there the
+   model writes the same index *)
 Lemma stage_unwind db o l :
-  unwind_covered o = true ->
   stage_reasons db "$unwind" o l = 0 ->
   rel (spec_stage db "$unwind" o (mkStream l true [])) (run_stage db "$unwind" o l).
 Proof.
-  intros Hc Hg.
+  intros Hg.
   assert (Hs : spec_stage db "$unwind" o (mkStream l true []) = spec_unwind o (mkStream l true []))
     by (destruct o; reflexivity).
   rewrite Hs. clear Hs. rewrite run_stage_unwind. rewrite spec_unwind_unfold.
@@ -202,8 +323,6 @@ Proof.
                          ["path"; "preserveNullAndEmptyArrays"; "includeArrayIndex"]) fs)) 256 = 0) by exact Hg.
     apply zb_zero in Hg'; [|discriminate]. apply negb_false_iff in Hg'. exact Hg'. }
   rewrite Hall. cbn [negb].
-  assert (Hidx : assoc "includeArrayIndex" (unwind_opts o) = None).
-  { destruct o; try reflexivity. apply has_key_assoc. apply negb_true_iff. exact Hc. }
   unfold unwind. fold (unwind_opts o).
   destruct (assoc "path" (unwind_opts o)) as [pv|]; [|apply rel_err].
   destruct pv; try apply rel_err. rename s into path.
@@ -215,17 +334,36 @@ Proof.
   { destruct (split_dots rest); reflexivity. }
   rewrite Hsets.
   destruct (negb (path_modelled (split_dots rest))); [apply rel_unmodelled|].
-  rewrite Hidx.
-  assert (Hbody : forall preserve,
-     rel match all_opt (map (spec_unwind_doc (split_dots rest) preserve None) l) with
+  assert (Hbody : forall preserve idx, idx_ok (split_dots rest) idx ->
+     rel match all_opt (map (spec_unwind_doc (split_dots rest) preserve idx) l) with
          | Some ls => PV (mkStream (List.concat ls) true [])
          | None => PUndef
          end
-         (let! parts_l := mapM (unwind_doc (split_dots rest) preserve None) l in Ok (List.concat parts_l))).
-  { intros preserve.
-    destruct (all_opt (map (spec_unwind_doc (split_dots rest) preserve None) l)) as [ls|] eqn:Hls; [|exact I].
-    rewrite (unwind_docs_spec _ _ _ _ (split_dots_ne rest) Hls). simpl. repeat split. }
-  destruct (assoc "preserveNullAndEmptyArrays" (unwind_opts o)) as [pv|].
-  - destruct pv; try exact I. apply Hbody.
-  - apply Hbody.
+         (let! parts_l := mapM (unwind_doc (split_dots rest) preserve idx) l in Ok (List.concat parts_l))).
+  { intros preserve idx Hi.
+    destruct (all_opt (map (spec_unwind_doc (split_dots rest) preserve idx) l)) as [ls|] eqn:Hls; [|exact I].
+    rewrite (unwind_docs_spec _ _ _ _ _ (split_dots_ne rest) Hi Hls). simpl. repeat split. }
+  (* the specification's reading of preserveNullAndEmptyArrays: a boolean, or absent *)
+  destruct (match assoc "preserveNullAndEmptyArrays" (unwind_opts o) with
+            | None => Some false | Some (VBool b) => Some b | Some _ => None end) as [sp|] eqn:Hsp;
+    [|exact I].
+  assert (Hpres : (match assoc "preserveNullAndEmptyArrays" (unwind_opts o) with
+                   | Some v => truthy v | None => false end) = sp).
+  { destruct (assoc "preserveNullAndEmptyArrays" (unwind_opts o)) as [pv|].
+    - destruct pv; try discriminate. inversion Hsp; subst. destruct sp; reflexivity.
+    - inversion Hsp; reflexivity. }
+  rewrite Hpres.
+  destruct (assoc "includeArrayIndex" (unwind_opts o)) as [iv|].
+  - destruct iv as [| | | |n| | | |]; try exact I.
+    destruct (forallb plain_name (split_dots n)
+              && negb (ProjectSpec.is_prefix_of (split_dots n) (split_dots rest)
+                       || ProjectSpec.is_prefix_of (split_dots rest) (split_dots n))) eqn:Hok; [|exact I].
+    apply andb_true_iff in Hok. destruct Hok as [Hplain Hpre].
+    apply negb_true_iff, orb_false_iff in Hpre. destruct Hpre as [Hnp Hpn].
+    assert (Hn : (n =? "") = false).
+    { destruct n; [discriminate Hplain|reflexivity]. }
+    rewrite Hn.
+    destruct (path_modelled (split_dots n)); [|apply rel_unmodelled].
+    apply Hbody. split; [apply split_dots_ne|]. split; assumption.
+  - apply Hbody. exact I.
 Qed.
